@@ -1,0 +1,214 @@
+//go:build verif
+
+package trie
+
+// Verification exports for property C20 (the on-disk string dictionary behaves like a sorted
+// map). New file, build tag `verif` only: nothing here is compiled into a normal build.
+// It only READS the unexported state of the builder / trie so that the LOUDS encoding can be
+// compared array-for-array with the Lean model, and wraps the rank/select vectors so that
+// they can be exercised on arbitrary bit vectors.
+
+// VerifConsts returns the constants the encoding depends on.
+func VerifConsts() map[string]int {
+	return map[string]int{
+		"labelTerminator":      labelTerminator,
+		"wordSize":             wordSize,
+		"rankSparseBlockSize":  rankSparseBlockSize,
+		"selectSampleInterval": selectSampleInterval,
+		"HasChild":             int(HasChild),
+		"Louds":                int(Louds),
+		"HasPrefix":            int(HasPrefix),
+		"HasSuffix":            int(HasSuffix),
+	}
+}
+
+// VerifLevel is a copy of one builder level.
+type VerifLevel struct {
+	Labels    []byte
+	HasChild  []bool // one per label
+	Louds     []bool // one per label
+	HasPrefix []bool // one per node
+	Prefixes  [][]byte
+	HasSuffix []bool // one per label
+	Suffixes  [][]byte
+	Values    []uint32
+	NodeCount int
+}
+
+func verifBits(bs []uint64, n int) []bool {
+	out := make([]bool, n)
+	for i := 0; i < n; i++ {
+		out[i] = readBit(bs, uint32(i))
+	}
+	return out
+}
+
+func verifCopy2(xs [][]byte) [][]byte {
+	out := make([][]byte, len(xs))
+	for i := range xs {
+		out[i] = append([]byte{}, xs[i]...)
+	}
+	return out
+}
+
+// VerifLevels copies the per-level vectors of a builder after Build.
+func VerifLevels(b Builder) []VerifLevel {
+	bb, ok := b.(*builder)
+	if !ok {
+		return nil
+	}
+	var out []VerifLevel
+	for _, l := range bb.levels {
+		n := len(l.lsLabels)
+		out = append(out, VerifLevel{
+			Labels:    append([]byte{}, l.lsLabels...),
+			HasChild:  verifBits(l.lsHasChild, n),
+			Louds:     verifBits(l.lsLouds, n),
+			HasPrefix: verifBits(l.hasPrefix, l.nodeCount),
+			Prefixes:  verifCopy2(l.prefixes),
+			HasSuffix: verifBits(l.hasSuffix, n),
+			Suffixes:  verifCopy2(l.suffixes),
+			Values:    append([]uint32{}, l.values...),
+			NodeCount: l.nodeCount,
+		})
+	}
+	return out
+}
+
+// VerifVectors is a copy of the flat vectors of a trie (built in memory or unmarshalled).
+type VerifVectors struct {
+	Height, TotalKeys uint32
+	Labels            []byte
+	HasChild          []bool
+	HasChildRankLut   []uint32
+	Louds             []bool
+	LoudsNumOnes      uint32
+	LoudsSelectLut    []uint32
+	HasPrefix         []bool
+	HasPrefixRankLut  []uint32
+	PrefixOffsets     []uint32
+	PrefixData        []byte
+	HasSuffix         []bool
+	HasSuffixRankLut  []uint32
+	SuffixOffsets     []uint32
+	SuffixData        []byte
+	Values            []uint32
+}
+
+func verifLut(v *rankVector) []uint32 {
+	if v.blockSize == 0 {
+		return nil
+	}
+	n := v.numBits/v.blockSize + 1
+	if int(n) > len(v.rankLut) {
+		n = uint32(len(v.rankLut))
+	}
+	return append([]uint32{}, v.rankLut[:n]...)
+}
+
+// VerifDump copies the flat vectors of t.
+func VerifDump(t SuccinctTrie) *VerifVectors {
+	tr, ok := t.(*trie)
+	if !ok {
+		return nil
+	}
+	nsel := tr.loudsVec.numOnes/selectSampleInterval + 1
+	if int(nsel) > len(tr.loudsVec.selectLut) {
+		nsel = uint32(len(tr.loudsVec.selectLut))
+	}
+	return &VerifVectors{
+		Height:           tr.height,
+		TotalKeys:        tr.totalKeys,
+		Labels:           append([]byte{}, tr.labelVec.labels...),
+		HasChild:         verifBits(tr.hasChildVec.bits, int(tr.hasChildVec.numBits)),
+		HasChildRankLut:  verifLut(&tr.hasChildVec.rankVector),
+		Louds:            verifBits(tr.loudsVec.bits, int(tr.loudsVec.numBits)),
+		LoudsNumOnes:     tr.loudsVec.numOnes,
+		LoudsSelectLut:   append([]uint32{}, tr.loudsVec.selectLut[:nsel]...),
+		HasPrefix:        verifBits(tr.prefixVec.hasPathVector.bits, int(tr.prefixVec.hasPathVector.numBits)),
+		HasPrefixRankLut: verifLut(&tr.prefixVec.hasPathVector.rankVector),
+		PrefixOffsets:    append([]uint32{}, tr.prefixVec.offsets...),
+		PrefixData:       append([]byte{}, tr.prefixVec.data...),
+		HasSuffix:        verifBits(tr.suffixVec.hasPathVector.bits, int(tr.suffixVec.hasPathVector.numBits)),
+		HasSuffixRankLut: verifLut(&tr.suffixVec.hasPathVector.rankVector),
+		SuffixOffsets:    append([]uint32{}, tr.suffixVec.offsets...),
+		SuffixData:       append([]byte{}, tr.suffixVec.data...),
+		Values:           append([]uint32{}, tr.values.values...),
+	}
+}
+
+// VerifNav exposes the navigation primitives of a trie (positions are label positions).
+type VerifNav struct{ t *trie }
+
+// VerifNavOf wraps t.
+func VerifNavOf(t SuccinctTrie) *VerifNav {
+	tr, ok := t.(*trie)
+	if !ok {
+		return nil
+	}
+	return &VerifNav{t: tr}
+}
+
+func (n *VerifNav) FirstLabelPos(nodeID uint32) uint32 { return n.t.firstLabelPos(nodeID) }
+func (n *VerifNav) LastLabelPos(nodeID uint32) uint32  { return n.t.lastLabelPos(nodeID) }
+func (n *VerifNav) ChildNodeID(pos uint32) uint32      { return n.t.childNodeID(pos) }
+func (n *VerifNav) ValuePos(pos uint32) uint32         { return n.t.valuePos(pos) }
+func (n *VerifNav) NodeSize(pos uint32) uint32         { return n.t.nodeSize(pos) }
+func (n *VerifNav) IsEndOfNode(pos uint32) bool        { return n.t.isEndOfNode(pos) }
+func (n *VerifNav) HasChild(pos uint32) bool           { return n.t.hasChildVec.IsSet(pos) }
+func (n *VerifNav) Prefix(nodeID uint32) []byte {
+	return append([]byte{}, n.t.prefixVec.GetPrefix(nodeID)...)
+}
+func (n *VerifNav) Suffix(pos uint32) []byte {
+	return append([]byte{}, n.t.suffixVec.GetSuffix(pos)...)
+}
+
+// VerifBitVec is a rank vector and a select vector built by the package's own Init code from
+// arbitrary bit blocks (one block per "level"; the blocks are concatenated exactly as the
+// per-level bitmaps of a builder are).
+type VerifBitVec struct {
+	rank rankVectorSparse
+	sel  selectVector
+}
+
+// VerifNewBitVec builds the vectors from the given blocks of bits.
+func VerifNewBitVec(blocks [][]bool) *VerifBitVec {
+	var levels []*Level
+	for _, blk := range blocks {
+		l := NewLevel()
+		l.lsLabels = make([]byte, len(blk))
+		words := len(blk)/wordSize + 1
+		l.lsHasChild = make([]uint64, words)
+		l.lsLouds = make([]uint64, words)
+		for i, b := range blk {
+			if b {
+				setBit(l.lsHasChild, uint32(i))
+				setBit(l.lsLouds, uint32(i))
+			}
+		}
+		levels = append(levels, l)
+	}
+	v := &VerifBitVec{}
+	v.rank.Init(levels, HasChild)
+	v.sel.Init(levels, Louds)
+	return v
+}
+
+func (v *VerifBitVec) NumBits() uint32 { return v.rank.numBits }
+func (v *VerifBitVec) NumOnes() uint32 { return v.sel.numOnes }
+func (v *VerifBitVec) Bits() []bool    { return verifBits(v.rank.bits, int(v.rank.numBits)) }
+func (v *VerifBitVec) SelBits() []bool { return verifBits(v.sel.bits, int(v.sel.numBits)) }
+func (v *VerifBitVec) RankLut() []uint32 {
+	return verifLut(&v.rank.rankVector)
+}
+func (v *VerifBitVec) SelectLut() []uint32 {
+	n := v.sel.numOnes/selectSampleInterval + 1
+	if int(n) > len(v.sel.selectLut) {
+		n = uint32(len(v.sel.selectLut))
+	}
+	return append([]uint32{}, v.sel.selectLut[:n]...)
+}
+func (v *VerifBitVec) Rank(pos uint32) uint32     { return v.rank.Rank(pos) }
+func (v *VerifBitVec) Select(k uint32) uint32     { return v.sel.Select(k) }
+func (v *VerifBitVec) IsSet(pos uint32) bool      { return v.rank.IsSet(pos) }
+func (v *VerifBitVec) Distance(pos uint32) uint32 { return v.sel.DistanceToNextSetBit(pos) }
